@@ -751,10 +751,50 @@ def rule_nbr_use(ctx, tu):
     bad = [r for r in I.subs if r["status"] == "bad" and " adds " in r.get("detail", "") and "kind cell" in r.get("detail", "")]
     for r in bad:
         ctx.violation(R, r["node"], r["fn"], r["text"][:80], r["detail"] + " -- the neighbour is not read from the neighbour table")
+    # every direction of a cell is visited: a loop whose variable addresses the direction slot of the neighbour table (or of a
+    # table laid out like it) runs over all six directions, 0..5 in steps of one.  Half of the directions (a pair-wise scheme
+    # over the backward neighbours) misses the wrap-around partner, whose index is larger, on periodic axes
+    nd = 0
+    for f in tu.all_fns():
+        if f.body is None:
+            continue
+        for lp in walk(f.body):
+            if lp.get("kind") != "ForStmt":
+                continue
+            init, cond, inc, body = cxa.for_parts(lp)
+            if init is None or cond is None or inc is None:
+                continue
+            vds = [x for x in walk(init) if x.get("kind") == "VarDecl"]
+            if len(vds) != 1:
+                continue
+            v = uname(vds[0])
+            used_as_dir = False
+            for x in walk(body):
+                sub = cxfe.subscript(x)
+                if sub is not None and name_of(strip(sub[0], casts=True)) == "mesh_neighbors":
+                    p_ = cxa.poly(sub[1])
+                    if any(c == 1 and len(m) == 1 and m[0][0] == v for m, c in p_.t.items()) and \
+                            any(c == 6 for m, c in p_.t.items()):
+                        used_as_dir = True
+            if not used_as_dir:
+                continue
+            nd += 1
+            c_ = strip(cond, casts=True)
+            full = kids(vds[0]) and cxa.const_int(kids(vds[0])[-1]) == 0 and c_.get("kind") == "BinaryOperator" and \
+                c_.get("opcode") == "<" and cxa.const_int(kids(c_)[1]) == 6 and uname(strip(kids(c_)[0], casts=True)) == v and \
+                all(not (c_.get("opcode") == "&&") for _ in (0,))
+            i_ = strip(inc, casts=True)
+            step1 = (i_.get("kind") == "UnaryOperator" and i_.get("opcode") == "++") or \
+                (i_.get("kind") == "CompoundAssignOperator" and i_.get("opcode") == "+=" and cxa.const_int(kids(i_)[1]) == 1)
+            ctx.check(bool(full and step1), R, lp, f.qual, "for(%s; %s; %s) over the directions" % (
+                text(init)[:20], text(cond)[:20], text(inc)[:12]), "all six directions of the cell",
+                "the direction loop does not visit all six directions (0..5 by one): exchanges with the skipped neighbours rely on "
+                "the other cell's pass, which a periodic wrap (partner with a larger index) breaks")
+    ctx.need(nd >= 4, R, "only %d direction loops over the neighbour table found" % nd)
     n = sum(1 for r in I.subs if r["status"] == "ok" and r.get("layout") and any(k[0] in ("cell", "cell?") for k in r["layout"]))
     ctx.ok(R, None, "engine", "%d subscripts address a cell through a loop index, a parameter or a neighbour-table entry" % n,
            "no cell index is computed by offset arithmetic")
-    ctx.floor(R, 1)
+    ctx.floor(R, 5)
 
 
 def run(ctx):
